@@ -3,7 +3,7 @@ usage: python cases.py <case>      exit 1 = the defect reproduces, exit 0 = it d
 import sys
 import types
 
-sys.path.insert(0, "/repo")
+sys.path.insert(0, __import__("os").environ.get("PVC_REPO", "/repo"))
 import ptera  # noqa: E402
 from ptera import probing, tooled  # noqa: E402
 from ptera.utils import ABSENT  # noqa: E402
